@@ -324,6 +324,100 @@ func batchvisMain(a []string) {
 		db.Close()
 		enc.Encode(map[string]interface{}{"scenario": "D merge scan during an open batch, process death before Commit", "observations": obs, "violations": viol})
 	}
+
+	// ---- E: overwrites during the unlocked scan phase of a Merge, then a power failure after the Merge has completed
+	{
+		db := open("e")
+		obs := map[string]string{}
+		var viol []string
+		must(db.Put([]byte("k"), []byte("old")))
+		must(db.Put([]byte("j"), []byte("jold")))
+		must(db.Sync())
+		// per file: bytes written and bytes covered by the last completed fsync (standard I/O: the engine's own event hooks)
+		written := map[string]int64{}
+		synced := map[string]int64{}
+		var iomu sync.Mutex
+		verifhook.IOFn = func(kind, name string, n int64) {
+			iomu.Lock()
+			defer iomu.Unlock()
+			switch kind {
+			case "open":
+				if _, ok := written[name]; !ok {
+					if st, err := os.Stat(name); err == nil {
+						written[name] = st.Size()
+						synced[name] = st.Size()
+					}
+				}
+			case "write":
+				written[name] += n
+			case "sync":
+				synced[name] = written[name]
+			}
+		}
+		paused := make(chan struct{})
+		resume := make(chan struct{})
+		first := true
+		verifhook.PointFn = func(name, arg string) {
+			if name == "merge.record" && first {
+				first = false
+				close(paused)
+				<-resume
+			}
+		}
+		mdone := make(chan error, 1)
+		go func() { mdone <- db.Merge() }()
+		<-paused
+		// acknowledged, not flushed (SyncStrategy No): the index now points at these records, Merge will not rewrite the old ones
+		must(db.Put([]byte("k"), []byte("new")))
+		must(db.Delete([]byte("j")))
+		close(resume)
+		err := <-mdone
+		verifhook.PointFn = nil
+		verifhook.IOFn = nil
+		obs["Merge"] = errClass(err)
+		// power failure now: every file of the data directory keeps its flushed prefix only
+		img := filepath.Join(base, "img-e")
+		copyDirSparse(filepath.Join(base, "e"), filepath.Join(img, "e"))
+		if _, err := os.Stat(filepath.Join(base, "e-merge")); err == nil {
+			copyDirSparse(filepath.Join(base, "e-merge"), filepath.Join(img, "e-merge"))
+		}
+		iomu.Lock()
+		for name, w := range written {
+			if filepath.Dir(name) != filepath.Join(base, "e") {
+				continue
+			}
+			if sy := synced[name]; sy < w {
+				os.Truncate(filepath.Join(img, "e", filepath.Base(name)), sy)
+				obs["cut "+filepath.Base(name)] = fmt.Sprintf("%d of %d bytes survive", sy, w)
+			}
+		}
+		iomu.Unlock()
+		o := kv.DefaultOptions
+		o.DirPath = filepath.Join(img, "e")
+		o.DataFileSize = 4096
+		o.IndexType = int8(idx)
+		o.ShardNum = 4
+		db2, err := kv.Open(o)
+		if err != nil {
+			viol = append(viol, "Open after the power failure: "+errClass(err))
+		} else {
+			v, e1 := db2.Get([]byte("k"))
+			gk := show(res{string(v), e1})
+			v, e1 = db2.Get([]byte("j"))
+			gj := show(res{string(v), e1})
+			obs["k after power failure + restart"] = gk
+			obs["j after power failure + restart"] = gj
+			// acknowledged history: k=old, j=jold (flushed) ; k=new ; del j.  Recovery must show a prefix that contains the flushed part
+			ok := (gk == "val:old" && gj == "val:jold") || (gk == "val:new" && gj == "val:jold") || (gk == "val:new" && gj == "notfound")
+			if !ok {
+				viol = append(viol, "writes that raced with a Merge, power failure after the Merge completed: k -> "+gk+", j -> "+gj+
+					"; the flushed history is k=old, j=jold, then k=new, then delete j - no prefix of it gives that (the Merge dropped the flushed records its output was meant to replace, and the records that superseded them were not flushed yet)")
+			}
+			db2.Close()
+		}
+		db.Close()
+		enc.Encode(map[string]interface{}{"scenario": "E writes racing with a Merge, power failure after it", "observations": obs, "violations": viol})
+	}
 }
 
 func must(err error) {
